@@ -6,6 +6,9 @@ mod c20x;
 mod fw;
 mod gen_dlt;
 mod lc;
+mod pipechecks;
+mod pipes;
+mod plug;
 mod sh;
 mod world;
 mod rng;
@@ -21,8 +24,10 @@ macro_rules! registry {
             "C02" => $mac!(c02::C02),
             "C04" => $mac!(c04::C04),
             "C05" => $mac!(lc::C05),
+            "C06" => $mac!(pipechecks::C06),
             "C07" => $mac!(lc::C07),
             "C08" => $mac!(lc::C08),
+            "C13" => $mac!(pipechecks::C13),
             "C20" => $mac!(c20::C20),
             other => {
                 eprintln!("HARNESS-ERROR unknown check id {}", other);
@@ -32,7 +37,7 @@ macro_rules! registry {
     };
 }
 
-pub const ALL_IDS: &[&str] = &["C01", "C02", "C04", "C05", "C07", "C08", "C20"];
+pub const ALL_IDS: &[&str] = &["C01", "C02", "C04", "C05", "C06", "C07", "C08", "C13", "C20"];
 
 fn arg_val(args: &[String], name: &str) -> Option<String> {
     args.iter()
